@@ -227,8 +227,32 @@ fn int(v: &Value) -> i64 {
 // ------------------------------------------------------------------------------------------------
 // Projection: IndexedInstruments -> the spec's `tables` (positions 1-based, 0 = none)
 // ------------------------------------------------------------------------------------------------
-fn def_id(defs: &[Value], ex: i64, ni: i64) -> i64 {
-    defs.iter().find(|d| i(d, "ex") == ex && i(d, "ni") == ni).map(|d| i(d, "id")).unwrap_or(0)
+/// a table entry is identified by exchange, both names and kind (internal names alone need not
+/// be unique: spot and perpetual of one underlying)
+fn def_id(defs: &[Value], ex: i64, ni: i64, nx: i64, kind: &str) -> i64 {
+    defs.iter().find(|d| i(d, "ex") == ex && i(d, "ni") == ni && i(d, "nx") == nx && s(d, "kind") == kind).map(|d| i(d, "id")).unwrap_or(0)
+}
+fn kind_name<A>(k: &InstrumentKind<A>) -> &'static str {
+    match k {
+        InstrumentKind::Spot => "spot",
+        InstrumentKind::Perpetual(_) => "perp",
+        InstrumentKind::Future(_) => "future",
+        InstrumentKind::Option(_) => "option",
+    }
+}
+
+/// an expected value that may be an open point of the spec ({"anyOf": [..]}), mapped element-wise
+fn lift(v: &Value, f: &dyn Fn(i64) -> Value) -> Value {
+    match v.get("anyOf").and_then(|x| x.as_array()) {
+        Some(alts) => json!({"anyOf": alts.iter().map(|x| f(int(x))).collect::<Vec<_>>()}),
+        None => f(int(v)),
+    }
+}
+fn is_zero(v: &Value) -> bool {
+    v.as_i64() == Some(0)
+}
+fn is_open(v: &Value) -> bool {
+    v.get("anyOf").is_some()
 }
 
 fn project_instrument(
@@ -249,7 +273,7 @@ fn project_instrument(
         Some(other) => json!(format!("{other:?}")),
     };
     json!({
-        "id": def_id(defs, ex, ni), "ex": ex, "xk": ins.exchange.key.index() as i64 + 1,
+        "id": def_id(defs, ex, ni, ins_exc_rank(&ins.name_exchange), kind), "ex": ex, "xk": ins.exchange.key.index() as i64 + 1,
         "ni": ni, "nx": ins_exc_rank(&ins.name_exchange), "kind": kind,
         "base": ins.underlying.base.index() as i64 + 1, "quote": ins.underlying.quote.index() as i64 + 1,
         "settle": settle, "unit": unit,
@@ -319,9 +343,10 @@ fn c11_tables(rep: &mut Report, scn: &Value, ix: &IndexedInstruments) {
             rep.same(&format!("find_asset_index({e},{})", asset_int(a)), "find:asset_index", &json!(exp), &json!(got));
         }
         for n in 1..=INS_MAX {
-            let exp = si.iter().position(|x| i(x, "ex") == r && i(x, "ni") == n).map(|p| p as i64 + 1).unwrap_or(0);
+            let bearers: Vec<i64> = si.iter().enumerate().filter(|(_, x)| i(x, "ex") == r && i(x, "ni") == n).map(|(p, _)| p as i64 + 1).collect();
+            let exp = match bearers.len() { 0 => json!(0), 1 => json!(bearers[0]), _ => json!({"anyOf": bearers}) };
             let got = opt_idx(ix.find_instrument_index(e, &ins_int(n)), |k| k.index());
-            rep.same(&format!("find_instrument_index({e},{})", ins_int(n)), "find:instrument_index", &json!(exp), &json!(got));
+            rep.same(&format!("find_instrument_index({e},{})", ins_int(n)), "find:instrument_index", &exp, &json!(got));
         }
     }
     for p in 0..=sa.len() {
@@ -364,7 +389,8 @@ fn project_engine(ix: &IndexedInstruments, defs: &[Value]) -> Result<Value, Stri
             let ni = ins_int_rank(&st.instrument.name_internal);
             // the state must carry the very definition of table entry p (exchange mapped to its index)
             let same_def = ix2.instruments().get(p).map(|k| k.value.clone().map_exchange_key(k.value.exchange.key) == st.instrument).unwrap_or(false);
-            json!({"ni": ni, "key": st.key.index() as i64 + 1, "id": def_id(defs, ex, ni),
+            json!({"ni": ni, "key": st.key.index() as i64 + 1,
+                   "id": def_id(defs, ex, ni, ins_exc_rank(&st.instrument.name_exchange), kind_name(&st.instrument.kind)),
                    "map_key": ins_int_rank(map_key), "by_name_key": by_name.key.index() as i64 + 1,
                    "same_def": same_def, "created": st.data})
         }).collect();
@@ -395,7 +421,10 @@ fn c11_engine(rep: &mut Report, scn: &Value, ix: &IndexedInstruments) {
     let exp_sti: Vec<Value> = arr(scn, "sti").iter().enumerate().map(|(p, x)| {
         json!({"ni": x["ni"], "key": x["key"], "id": x["id"], "map_key": x["ni"], "by_name_key": x["key"], "same_def": true, "created": p + 1})
     }).collect();
-    rep.same("engine.instruments", "aligned:instrument_states", &json!(exp_sti), &got["sti"]);
+    // InstrumentStates is keyed by the internal name alone: claimed only when those are distinct
+    if b(scn, "uni") {
+        rep.same("engine.instruments", "aligned:instrument_states", &json!(exp_sti), &got["sti"]);
+    }
     let exp_sta: Vec<Value> = arr(scn, "sta").iter().map(|x| {
         json!({"ex": x["ex"], "a": x["a"], "nx": x["nx"], "map_a": x["a"], "balance": 1000 + 10 * i(x, "ex") + i(x, "a")})
     }).collect();
@@ -466,7 +495,7 @@ pub fn check_c11(scn: &Value, rt: &tokio::runtime::Runtime) -> Report {
 struct Given {
     ex: HashMap<i64, usize>,
     assets: HashMap<(i64, i64), usize>,
-    ins: HashMap<(i64, i64), usize>,
+    ins: HashMap<(i64, i64, i64, String), usize>,
 }
 
 fn given(ix: &IndexedInstruments) -> Result<Given, String> {
@@ -479,8 +508,8 @@ fn given(ix: &IndexedInstruments) -> Result<Given, String> {
         if g.assets.insert(key, k.key.index()).is_some() { return Err(format!("asset {key:?} twice in the table")); }
     }
     for k in ix.instruments() {
-        let key = (ex_rank(k.value.exchange.value), ins_int_rank(&k.value.name_internal));
-        if g.ins.insert(key, k.key.index()).is_some() { return Err(format!("instrument {key:?} twice in the table")); }
+        let key = (ex_rank(k.value.exchange.value), ins_int_rank(&k.value.name_internal), ins_exc_rank(&k.value.name_exchange), kind_name(&k.value.kind).to_string());
+        if g.ins.insert(key.clone(), k.key.index()).is_some() { return Err(format!("instrument {key:?} twice in the table")); }
     }
     Ok(g)
 }
@@ -488,7 +517,7 @@ fn given(ix: &IndexedInstruments) -> Result<Given, String> {
 /// spec position (1-based) -> actual index, for the asset and instrument tables of the scenario
 fn positions(scn: &Value, g: &Given) -> Result<(Vec<usize>, Vec<usize>), String> {
     let a = arr(scn, "as").iter().map(|x| g.assets.get(&(i(x, "ex"), i(x, "a"))).copied().ok_or(format!("asset {x} missing from the implementation's table"))).collect::<Result<Vec<_>, _>>()?;
-    let n = arr(scn, "ins").iter().map(|x| g.ins.get(&(i(x, "ex"), i(x, "ni"))).copied().ok_or(format!("instrument {x} missing from the implementation's table"))).collect::<Result<Vec<_>, _>>()?;
+    let n = arr(scn, "ins").iter().map(|x| g.ins.get(&(i(x, "ex"), i(x, "ni"), i(x, "nx"), s(x, "kind").to_string())).copied().ok_or(format!("instrument {x} missing from the implementation's table"))).collect::<Result<Vec<_>, _>>()?;
     Ok((a, n))
 }
 
@@ -732,7 +761,8 @@ pub fn check_c04(scn: &Value, rt: &tokio::runtime::Runtime) -> Report {
     let i_actual = |p: usize| if p < ipos.len() { ipos[p] } else { n_ins + (p - ipos.len()) };
     // spec position (1-based, 0 none) -> actual index + 1
     let a_exp = |v: &Value| { let p = int(v); if p == 0 { 0 } else { apos[(p - 1) as usize] as i64 + 1 } };
-    let i_exp = |v: &Value| { let p = int(v); if p == 0 { 0 } else { ipos[(p - 1) as usize] as i64 + 1 } };
+    // (an instrument name borne by several instruments of the exchange: any of them)
+    let i_exp = |v: &Value| lift(v, &|p| json!(if p == 0 { 0 } else { ipos[(p - 1) as usize] as i64 + 1 }));
 
     // an exchange that is not part of the collection has no map
     for e in ALL_EX.iter().chain([&ALIEN_EX]) {
@@ -759,7 +789,8 @@ pub fn check_c04(scn: &Value, rt: &tokio::runtime::Runtime) -> Report {
         let mut exp_an: Vec<i64> = arr(m, "an").iter().map(int).collect(); exp_an.sort();
         rep.same(&format!("map[{ex}].exchange_assets"), &format!("map.exchange_assets:{c}"), &json!(exp_an), &json!(an));
         let mut inn: Vec<i64> = map.exchange_instruments().map(ins_exc_rank).collect(); inn.sort();
-        let mut exp_inn: Vec<i64> = arr(m, "inn").iter().map(int).collect(); exp_inn.sort();
+        let mut exp_inn: Vec<i64> = arr(m, "inn").iter().map(int).collect(); exp_inn.sort(); exp_inn.dedup();
+        inn.dedup();
         rep.same(&format!("map[{ex}].exchange_instruments"), &format!("map.exchange_instruments:{c}"), &json!(exp_inn), &json!(inn));
 
         // index -> name for every global index (own, foreign, one past the end)
@@ -771,7 +802,7 @@ pub fn check_c04(scn: &Value, rt: &tokio::runtime::Runtime) -> Report {
         for (p, exp) in arr(m, "ii").iter().enumerate() {
             let k = i_actual(p);
             let got = map.find_instrument_name_exchange(InstrumentIndex(k)).ok().map(|n| json!(n.name().as_str())).unwrap_or(json!("none"));
-            rep.same(&format!("map[{ex}].find_instrument_name_exchange(InstrumentIndex({k}))"), &format!("find_instrument_name_exchange:{c}"), &iname(int(exp)), &got);
+            rep.same(&format!("map[{ex}].find_instrument_name_exchange(InstrumentIndex({k}))"), &format!("find_instrument_name_exchange:{c}"), &lift(exp, &iname), &got);
         }
         // name -> index for every name of the universe (own and foreign)
         for (l, exp) in arr(m, "na").iter().enumerate() {
@@ -782,7 +813,7 @@ pub fn check_c04(scn: &Value, rt: &tokio::runtime::Runtime) -> Report {
         for (l, exp) in arr(m, "ni").iter().enumerate() {
             let name = ins_exc(l as i64 + 1);
             let got = opt_idx(map.find_instrument_index(&name), |k| k.index());
-            rep.same(&format!("map[{ex}].find_instrument_index({name})"), &format!("find_instrument_index:{c}"), &json!(i_exp(exp)), &json!(got));
+            rep.same(&format!("map[{ex}].find_instrument_index({name})"), &format!("find_instrument_index:{c}"), &i_exp(exp), &json!(got));
         }
         // RoundTrip, stated on the implementation alone: own index -> name -> index
         for (p, exp) in arr(m, "ia").iter().enumerate() {
@@ -793,7 +824,7 @@ pub fn check_c04(scn: &Value, rt: &tokio::runtime::Runtime) -> Report {
             }
         }
         for (p, exp) in arr(m, "ii").iter().enumerate() {
-            if int(exp) != 0 {
+            if !is_zero(exp) && !is_open(exp) {
                 let k = i_actual(p);
                 let back = map.find_instrument_name_exchange(InstrumentIndex(k)).ok().and_then(|n| map.find_instrument_index(n).ok()).map(|x| x.index() as i64).unwrap_or(-1);
                 rep.same(&format!("map[{ex}]: InstrumentIndex({k}) -> name -> index"), &format!("roundtrip_instrument:{c}"), &json!(k), &json!(back));
@@ -814,7 +845,8 @@ pub fn check_c04(scn: &Value, rt: &tokio::runtime::Runtime) -> Report {
         for x in 0..=n_ex {
             for (p, exp) in arr(m, "ii").iter().enumerate() {
                 let k = i_actual(p);
-                let want = if x == own_x && int(exp) != 0 { json!([xname(e), iname(int(exp))]) } else { json!(["none", "none"]) };
+                // (an instrument whose exchange name is shared within the exchange: addressed by it, or refused)
+                let want = if x == own_x && !is_zero(exp) { lift(exp, &|n| if n == 0 { json!(["none", "none"]) } else { json!([xname(e), iname(n)]) }) } else { json!(["none", "none"]) };
                 let open = indexer.order_request(&req_open(x, k, "c1")).ok().map(|r| json!([r.key.exchange.to_string(), r.key.instrument.name().as_str()])).unwrap_or(json!(["none", "none"]));
                 rep.same(&format!("indexer[{ex}].order_request(open, ExchangeIndex({x}), InstrumentIndex({k}))"), &format!("order_request:{c}"), &want, &open);
                 let cancel = indexer.order_request(&req_cancel(x, k, "c1")).ok().map(|r| json!([r.key.exchange.to_string(), r.key.instrument.name().as_str()])).unwrap_or(json!(["none", "none"]));
@@ -824,7 +856,7 @@ pub fn check_c04(scn: &Value, rt: &tokio::runtime::Runtime) -> Report {
         // ---- Outbound, end to end: a real ExecutionManager around the recording stub client -----
         for (p, exp) in arr(m, "ii").iter().enumerate() {
             let k = i_actual(p);
-            let own = int(exp) != 0;
+            let own = !is_zero(exp);
             // own instruments: open and cancel; foreign / past-the-end indices: open
             for kind in if own { &["open", "cancel"][..] } else { &["open"][..] } {
                 let request = if *kind == "open" { ExecutionRequest::Open(req_open(own_x, k, "c1")) } else { ExecutionRequest::Cancel(req_cancel(own_x, k, "c1")) };
@@ -834,7 +866,15 @@ pub fn check_c04(scn: &Value, rt: &tokio::runtime::Runtime) -> Report {
                     "response": out.response.map(|(x, n)| json!([x, n])).unwrap_or(json!("none")),
                     "refused": out.panic.is_some(),
                 });
-                let want = if own {
+                let refused = json!({"received": [], "response": {"any": true}, "refused": {"any": true}});
+                let want = if own && is_open(exp) {
+                    // exchange name shared within the exchange: addressed by that name (the answer then
+                    // comes back for one of its bearers) or refused - never another name
+                    let n = arr(exp, "anyOf").iter().map(int).find(|n| *n != 0).unwrap_or(0);
+                    let back = i_exp(&arr(m, "ni")[(n - 1) as usize]);
+                    let back = lift(&back, &|x| json!(x - 1));
+                    json!({"anyOf": [{"received": [[kind, xname(e), iname(n)]], "response": [own_x, back], "refused": false}, refused]})
+                } else if own {
                     json!({"received": [[kind, xname(e), iname(int(exp))]], "response": [own_x, k], "refused": false})
                 } else {
                     // not this exchange's instrument: nothing may reach the client (today the manager
@@ -850,8 +890,8 @@ pub fn check_c04(scn: &Value, rt: &tokio::runtime::Runtime) -> Report {
         for from in &froms {
             for (kind, tbl) in [("balance", "na"), ("order", "ni"), ("trade", "ni"), ("cancel", "ni")] {
                 for (l, exp) in arr(m, tbl).iter().enumerate() {
-                    let idx = if kind == "balance" { a_exp(exp) } else { i_exp(exp) };
-                    let want = if *from == ex && idx != 0 { json!([own_x as i64 + 1, idx]) } else { json!([0, 0]) };
+                    let idx = if kind == "balance" { json!(a_exp(exp)) } else { i_exp(exp) };
+                    let want = if *from == ex && !is_zero(&idx) { json!([own_x as i64 + 1, idx]) } else { json!([0, 0]) };
                     for variant in 0..(if kind == "order" { 3 } else if kind == "cancel" { 2 } else { 1 }) {
                         match event_result(&indexer, kind, *from, l as i64 + 1, variant) {
                             Ok((x, n)) => { rep.same(&format!("indexer[{ex}].account_event({kind} from {from} naming #{})", l + 1), &format!("account_event:{kind}:{c}"), &want, &json!([x, n])); }
@@ -869,21 +909,21 @@ pub fn check_c04(scn: &Value, rt: &tokio::runtime::Runtime) -> Report {
         for (l, exp) in arr(m, "ni").iter().enumerate() {
             let name = ins_exc(l as i64 + 1);
             for from in &froms {
-                let want = if *from == ex { i_exp(exp) } else { 0 };
+                let want = if *from == ex { i_exp(exp) } else { json!(0) };
                 let got = opt_idx(indexer.order_key(ukey(*from, &name)), |k| k.instrument.index());
-                rep.same(&format!("indexer[{ex}].order_key({from},{name})"), &format!("order_key:{c}"), &json!(want), &json!(got));
+                rep.same(&format!("indexer[{ex}].order_key({from},{name})"), &format!("order_key:{c}"), &want, &json!(got));
                 let got = opt_idx(indexer.order_response_cancel(ucancel(*from, &name, true)), |k| k.key.instrument.index());
-                rep.same(&format!("indexer[{ex}].order_response_cancel({from},{name})"), &format!("order_response_cancel:{c}"), &json!(want), &json!(got));
+                rep.same(&format!("indexer[{ex}].order_response_cancel({from},{name})"), &format!("order_response_cancel:{c}"), &want, &json!(got));
             }
             let got = opt_idx(indexer.trade(utrade(&name)), |t| t.instrument.index());
-            rep.same(&format!("indexer[{ex}].trade({name})"), &format!("trade:{c}"), &json!(i_exp(exp)), &json!(got));
+            rep.same(&format!("indexer[{ex}].trade({name})"), &format!("trade:{c}"), &i_exp(exp), &json!(got));
         }
         // full snapshots: all own names; plus one further asset / instrument name (own -> fine, foreign -> refused)
         let own_a: Vec<i64> = arr(m, "an").iter().map(int).collect();
         let own_i: Vec<i64> = arr(m, "inn").iter().map(int).collect();
         let at = |k: &str, l: i64| arr(m, k).get((l - 1) as usize).cloned().unwrap_or_else(|| usage(&format!("scenario names label {l} outside its own {k} table")));
         let exp_a: Vec<i64> = own_a.iter().map(|l| a_exp(&at("na", *l))).collect();
-        let exp_i: Vec<i64> = own_i.iter().map(|l| i_exp(&at("ni", *l))).collect();
+        let exp_i: Vec<Value> = own_i.iter().map(|l| i_exp(&at("ni", *l))).collect();
         for from in &froms {
             for via_event in [false, true] {
                 let want = if *from == ex { json!({"ok": true, "x": own_x + 1, "a": exp_a, "i": exp_i}) } else { json!({"ok": false, "x": 0, "a": [], "i": []}) };
@@ -903,7 +943,7 @@ pub fn check_c04(scn: &Value, rt: &tokio::runtime::Runtime) -> Report {
         }
         for (l, exp) in arr(m, "ni").iter().enumerate() {
             let mut names = own_i.clone(); names.push(l as i64 + 1);
-            let want = if int(exp) != 0 { let mut n = exp_i.clone(); n.push(i_exp(exp)); json!({"ok": true, "x": own_x + 1, "a": exp_a, "i": n}) } else { json!({"ok": false, "x": 0, "a": [], "i": []}) };
+            let want = if !is_zero(exp) { let mut n = exp_i.clone(); n.push(i_exp(exp)); json!({"ok": true, "x": own_x + 1, "a": exp_a, "i": n}) } else { json!({"ok": false, "x": 0, "a": [], "i": []}) };
             match snapshot_result(&indexer, ex, &own_a, &names, l % 2 == 1) {
                 Ok(got) => { rep.same(&format!("indexer[{ex}].snapshot(own names + instrument #{})", l + 1), &format!("snapshot:{c}"), &want, &got); }
                 Err(p) => rep.fail("snapshot:panic", p),
@@ -935,14 +975,22 @@ fn random_collection(rng: &mut rand::rngs::StdRng) -> Vec<Value> {
     for id in 1..=n_defs {
         let e = rng.random_range(1..=ALL_EX.len() as i64);
         let taken = used_nx.entry(e).or_default();
-        let nx = loop { let c = rng.random_range(1..=INS_MAX); if !taken.contains(&c) { break c; } };
+        let mut nx = loop { let c = rng.random_range(1..=INS_MAX); if !taken.contains(&c) { break c; } };
         taken.push(nx);
+        let mut ni = names[id as usize - 1];
+        // now and then two distinct definitions of one exchange share their internal name (spot and
+        // perpetual of one underlying) or their exchange name
+        let earlier: Vec<(i64, i64)> = pool.iter().filter(|d: &&Value| i(d, "ex") == e).map(|d| (i(d, "ni"), i(d, "nx"))).collect();
+        if !earlier.is_empty() {
+            let (oni, onx) = earlier[rng.random_range(0..earlier.len())];
+            match rng.random_range(0..8) { 0 => ni = oni, 1 => nx = onx, _ => {} }
+        }
         let base = rng.random_range(1..=5);
         let quote = loop { let q = rng.random_range(1..=5); if q != base { break q; } };
         let kind = match rng.random_range(0..20) { 0..=10 => "spot", 11..=13 => "perp", 14..=16 => "future", _ => "option" };
         let settle = if kind != "spot" { rng.random_range(1..=5) } else { 0 };
         let unit = if rng.random_bool(0.35) { rng.random_range(1..=5) } else { 0 };
-        pool.push(json!({"id": id, "ex": e, "ni": names[id as usize - 1], "nx": nx, "base": a_json(e, base), "quote": a_json(e, quote),
+        pool.push(json!({"id": id, "ex": e, "ni": ni, "nx": nx, "base": a_json(e, base), "quote": a_json(e, quote),
                          "kind": kind, "settle": a_json(e, settle), "unit": a_json(e, unit)}));
     }
     if pool.is_empty() { return vec![]; }
